@@ -84,6 +84,31 @@ CHECKS["C07"] = dict(
          "actors on the follower path is fire-and-forget and compared only after quiescence",
     design_ref="5 C07")
 
+CHECKS["C09"] = dict(
+    engine="configcenter",
+    technique="TLA+ spec ConfigCenter.tla (store/listing/history semantics; TLC invariants on history), TLC-simulated "
+              "publish/remove/import behaviours replayed on a real ConfigActor with exhaustive page-window and filter sweeps "
+              "after every step",
+    text="The store semantics (last write wins, history one entry per content change bounded, import, remove) are "
+         "model-checked; each generated behaviour is executed on the real actor and after every step every key's GET "
+         "(content, md5 of the real content, type), its history in several windows and - per tenant and filter class - "
+         "EVERY (offset, limit) page window is compared with the slice of the spec's ordered listing.",
+    note="actor level (the HTTP/gRPC parameter parsing above it is exercised in thorough tier only); "
+         "tenant always given, as every API does",
+    design_ref="5 C09")
+CHECKS["C10"] = dict(
+    engine="configcenter",
+    technique="TLA+ spec ConfigCenter.tla with listeners (TLC: NoStaleWaiter, ChangeNotifiesSubscribers action properties, "
+              "AnsweredByDeadline), TLC-simulated interleavings of listen/subscribe/publish/remove/tick replayed on a real "
+              "ConfigActor observing the long-poll receivers and the NotifyConfig hook events",
+    text="TLC explores every interleaving (small constants) of registrations with held md5s, publishes, removes, "
+         "time-outs, subscriptions and disconnects; a broken wake-up rule is kept as negative control. Generated "
+         "behaviours run on the real actor: after every step each long poll must be answered with exactly the changed "
+         "keys or still be pending, as the spec says, and the emitted subscriber notifications must match.",
+    note="real-time deadlines with generous margins (see evidence assumptions); gRPC delivery below "
+         "Subscriber::notify is not observed in quick tier",
+    design_ref="5 C10")
+
 NOT_YET = {}
 
 
